@@ -44,33 +44,37 @@ def hash_shape(F, e):
 def run(F, R, tier):
     bf = F.body("fast_check::build_fast_check_type_graph")
     # ---------------- C12-a ------------------------------------------------
-    ext = [n for n in bf["_nodes"] if n.get("k") == "MethodCall" and n["name"] == "extend" and expr_text(n["recv"]) == "final_result"]
-    ok_mods = [e for e in ext if "fast_check_modules" in expr_text(e["args"][0])]
+    RES_T = "Vec<(url::Url, std::result::Result<fast_check::transform::FastCheckModule"
+    ERR_T = "Vec<fast_check::FastCheckDiagnostic>"
+    rv_ = return_values(F, bf)
+    res_lid = peel_value(rv_[0]).get("lid") if rv_ else None
+    ext = [n for n in bf["_nodes"] if n.get("k") == "MethodCall" and n["name"] == "extend" and peel(n["recv"]).get("lid") == res_lid]
+    ok_mods = [e for e in ext if peel_value(e["args"][0]).get("res") == "local" and any(mentions_call(u, ["fast_check::transform_package"]) for u in bf["_nodes"] if u.get("k") == "Call" and any(peel_value(a_).get("lid") == peel_value(e["args"][0]).get("lid") for a_ in u.get("args", [])))]
     if R.ob("C12-a", "emitted modules are appended to the result", len(ok_mods) == 1, "shape changed", bf["file"]):
         g = guards_at(F, ok_mods[0])
-        ok = any(x.kind == "cond" and x.pol and x.node.get("k") == "MethodCall" and x.node["name"] == "is_empty" and expr_text(x.node["recv"]) == "errors" for x in g)
+        ok = any(x.kind == "cond" and x.pol and x.node.get("k") == "MethodCall" and x.node["name"] == "is_empty" and tyc(F, x.node["recv"], ERR_T) for x in g)
         R.ob("C12-a", "a package's emitted modules are published only if it has no errors", ok,
              "final_result.extend(fast_check_modules) is not dominated by errors.is_empty(): a package with diagnostics would still get emitted modules", where(ok_mods[0]))
-    pushes = [n for n in bf["_nodes"] if n.get("k") == "MethodCall" and n["name"] == "push" and expr_text(n["recv"]) == "final_result"]
+    pushes = [n for n in bf["_nodes"] if n.get("k") == "MethodCall" and n["name"] == "push" and peel(n["recv"]).get("lid") == res_lid]
     if R.ob("C12-a", "entrypoint error entries are pushed", len(pushes) == 1, "shape changed", bf["file"]):
         g = guards_at(F, pushes[0])
-        ok = any(x.kind == "cond" and not x.pol and x.node.get("name") == "is_empty" and expr_text(x.node["recv"]) == "errors" for x in g)
+        ok = any(x.kind == "cond" and not x.pol and x.node.get("name") == "is_empty" and tyc(F, x.node["recv"], ERR_T) for x in g)
         R.ob("C12-a", "entrypoints carry the diagnostics exactly when the package has errors", ok, "error entries not guarded by !errors.is_empty()", where(pushes[0]))
         lp = [a for a in k_ancestors(pushes[0]) if a["k"] == "For"]
-        R.ob("C12-a", "every entrypoint of a failing package gets the diagnostics", bool(lp) and "entrypoints" in expr_text(lp[0]["iter"]), "not a loop over package.entrypoints", where(pushes[0]))
+        R.ob("C12-a", "every entrypoint of a failing package gets the diagnostics", bool(lp) and mentions_field(lp[0]["iter"], "entrypoints"), "not a loop over package.entrypoints", where(pushes[0]))
     tp = F.body("fast_check::transform_package")
-    mp = [n for n in tp["_nodes"] if n.get("k") == "MethodCall" and n["name"] == "push" and expr_text(n["recv"]) == "fast_check_modules"]
+    mp = [n for n in tp["_nodes"] if n.get("k") == "MethodCall" and n["name"] == "push" and tyc(F, n["recv"], RES_T)]
     if R.ob("C12-a", "transform_package collects modules", len(mp) == 1, "shape changed", tp["file"]):
         g = guards_at(F, mp[0])
-        R.ob("C12-a", "a module is collected only while the package has no error", any(x.kind == "cond" and x.pol and x.node.get("name") == "is_empty" and expr_text(x.node["recv"]) == "errors" for x in g),
+        R.ob("C12-a", "a module is collected only while the package has no error", any(x.kind == "cond" and x.pol and x.node.get("name") == "is_empty" and tyc(F, x.node["recv"], ERR_T) for x in g),
              "fast_check_modules.push not guarded by errors.is_empty()", where(mp[0]))
-    ee = [n for n in tp["_nodes"] if n.get("k") == "MethodCall" and n["name"] == "extend" and expr_text(n["recv"]) == "errors"]
+    ee = [n for n in tp["_nodes"] if n.get("k") == "MethodCall" and n["name"] == "extend" and tyc(F, n["recv"], ERR_T) and peel(n["recv"]).get("res") == "local" and any(p_.get("lid") == peel(n["recv"]).get("lid") for p_ in tp["body"]["params"])]
     R.ob("C12-a", "every module's diagnostics are accumulated", len(ee) == 1, "errors.extend missing", tp["file"])
     # range-finder diagnostics block transformation of that module
     tr = [n for n in tp["_nodes"] if callee_matches(n, ["fast_check::transform::transform"])]
     if R.ob("C12-a", "transform call found", len(tr) == 1, "shape changed", tp["file"]):
         g = guards_at(F, tr[0])
-        R.ob("C12-a", "a module with tracing diagnostics is not transformed", any(x.kind == "cond" and x.pol and x.node.get("name") == "is_empty" and "diagnostics" in expr_text(x.node["recv"]) for x in g), "transform not guarded by diagnostics.is_empty()", where(tr[0]))
+        R.ob("C12-a", "a module with tracing diagnostics is not transformed", any(x.kind == "cond" and x.pol and x.node.get("name") == "is_empty" and tyc(F, x.node["recv"], ERR_T) and any(mentions_call(y, ["ModulePublicRanges::take_diagnostics"]) for y in through_locals(peel_value(x.node["recv"]))) for x in g), "transform not guarded by diagnostics.is_empty()", where(tr[0]))
 
     # ---------------- C12-b ------------------------------------------------
     tg = F.body("fast_check::range_finder::PublicRangeFinder::try_get_cache_item")
@@ -89,19 +93,19 @@ def run(F, R, tier):
     rv = return_values(F, iv)
     trues = [v for v in rv if peel(v).get("v") is True]
     falses = [v for v in rv if peel(v).get("v") is False]
-    ok = len(fors) == 1 and "modules" in expr_text(fors[0]["iter"]) and len(trues) == 1 and not is_within(trues[0], fors[0]) and all(is_within(f, fors[0]) for f in falses) and len(falses) >= 1
+    ok = len(fors) == 1 and mentions_field(fors[0]["iter"], "modules") and len(trues) == 1 and not is_within(trues[0], fors[0]) and all(is_within(f, fors[0]) for f in falses) and len(falses) >= 1
     R.ob("C12-b", "validation passes only after every module's hash was compared", ok,
          "is_cache_item_valid can return true before all of cache_item.modules were checked", iv["file"])
     if fors:
-        cmpn = [n for n in walk(fors[0]["body"]) if n.get("k") == "Binary" and n["op"] in ("!=", "==") and "source_hash" in expr_text(n)]
+        cmpn = [n for n in walk(fors[0]["body"]) if n.get("k") == "Binary" and n["op"] in ("!=", "==") and mentions_call(n, ["FastCheckCacheModuleItem::source_hash"])]
         bad, _ = must_pass(F, fors[0]["body"], lambda n: n in cmpn, exit_kinds=("fallthrough", "continue", "break"))
         R.ob("C12-b", "every cache entry kind (emitted or diagnostic) has its source hash compared", bool(cmpn) and not bad,
              "an iteration of the validation loop can finish without comparing the source hash: such entries are accepted although their source changed", where(fors[0]))
         cmp_ = [n for n in walk(fors[0]["body"]) if n.get("k") == "Binary" and n["op"] in ("!=", "==")]
-        ok = len(cmp_) == 1 and "source_hash" in expr_text(cmp_[0]) and "hash" in expr_text(cmp_[0]["l"])
+        ok = len(cmp_) == 1 and mentions_call(cmp_[0], ["FastCheckCacheModuleItem::source_hash"]) and any(mentions_call(y, ["fast_insecure_hash"]) for side in ("l", "r") for y in through_locals(peel_value(cmp_[0][side])))
         R.ob("C12-b", "validation compares the current source hash with the recorded one", ok, "comparison is `%s`" % (expr_text(cmp_[0]) if cmp_ else "?"), where(fors[0]))
     # dependencies replayed from a cache hit
-    deps = [n for n in tg["_nodes"] if n["k"] == "For" and "dependencies" in expr_text(n["iter"])]
+    deps = [n for n in tg["_nodes"] if n["k"] == "For" and mentions_field(n["iter"], "dependencies")]
     ok = len(deps) == 1 and any(callee_matches(x, ["PublicRangeFinder::add_pending_nv_no_referrer"]) for x in walk(deps[0]["body"]))
     R.ob("C12-b", "a cache hit re-queues every recorded dependency package", ok, "cached dependencies are not replayed", tg["file"])
     apn = F.body("fast_check::range_finder::PublicRangeFinder::add_pending_nv")
@@ -176,7 +180,7 @@ def run(F, R, tier):
     fm = [n for n in gb["_nodes"] if callee_matches(n, ["graph::fill_module_dependencies"])]
     if R.ob("C12-e", "graph fills fast-check dependencies", len(fm) == 1, "shape changed", gb["file"]):
         a = fm[0]["args"][2]
-        R.ob("C12-e", "dependencies are resolved from the emitted module's info", "module_info" in expr_text(a) and "fast_check_module" in expr_text(a), "dependencies come from `%s`" % expr_text(a)[:60], where(fm[0]))
+        R.ob("C12-e", "dependencies are resolved from the emitted module's info", mentions_field(a, "module_info", "fast_check::transform::FastCheckModule"), "dependencies come from `%s`" % expr_text(a)[:60], where(fm[0]))
         R.ob("C12-e", "they are resolved as a types-only view", ctor_of(peel(fm[0]["args"][0])) == "graph::GraphKind::TypesOnly", "graph kind %s" % expr_text(fm[0]["args"][0]), where(fm[0]))
     st = [n for n in gb["_nodes"] if n["k"] == "Struct" and n.get("adt") == "graph::FastCheckTypeModule"]
     if R.ob("C12-e", "FastCheckTypeModule literal found", len(st) == 1, "shape changed", gb["file"]):
@@ -193,7 +197,7 @@ def run(F, R, tier):
     wi = [n for n in bf["_nodes"] if n["k"] == "Struct" and (n.get("adt") or "").endswith("FastCheckCacheModuleItemInfo")]
     for w in wi:
         f = {x["name"]: x["e"] for x in w["fields"]}
-        ok = "module.text" in expr_text(f["text"]) and "module.source_map" in expr_text(f["source_map"]) and "module.module_info" in expr_text(f["module_info"])
+        ok = mentions_field(f["text"], "text", "fast_check::transform::FastCheckModule") and mentions_field(f["source_map"], "source_map", "fast_check::transform::FastCheckModule") and mentions_field(f["module_info"], "module_info", "fast_check::transform::FastCheckModule")
         R.ob("C12-e", "the cache stores the emitted text, source map and module info", ok, "cache item fields: %s" % {k: expr_text(v)[:30] for k, v in f.items()}, where(w))
     # ---------------- C12-f ------------------------------------------------
     n = 0
